@@ -342,6 +342,64 @@ fn raw_with(f: &Fl, text: &str) -> Vec<String> {
 /// filter spec for the model, with the parameter tables evaluated on the token texts that reach it
 fn filter_spec(f: &Fl, reaching: &[Token]) -> String {
     let texts: BTreeSet<&str> = reaching.iter().map(|t| t.text.as_str()).collect();
+    filter_spec_texts(f, &texts)
+}
+
+/// FacetTokenizer appends to the token's text buffer, which in-place filters rewrite: the texts
+/// that reach each filter of the chain, obtained by threading the buffer through the *real*
+/// single-filter analyzers (the Lean model does the same threading with these tables)
+fn facet_reaching(fls: &[Fl], text: &str) -> Vec<BTreeSet<String>> {
+    let mut reach: Vec<BTreeSet<String>> = vec![BTreeSet::new(); fls.len()];
+    let bytes = text.as_bytes();
+    let mut pieces: Vec<&str> = vec![""];
+    if !text.is_empty() {
+        let mut start = 0;
+        for i in 1..bytes.len() {
+            if bytes[i] == 0 {
+                pieces.push(&text[start..i]);
+                start = i;
+            }
+        }
+        pieces.push(&text[start..]);
+    }
+    let mut cur = String::new();
+    for p in pieces {
+        cur.push_str(p);
+        let mut parts: Option<Vec<String>> = None; // None = the tokenizer's own token is exposed
+        for (k, f) in fls.iter().enumerate() {
+            match parts.as_mut() {
+                None => {
+                    reach[k].insert(cur.clone());
+                    let r = raw_with(f, &cur);
+                    match f {
+                        Fl::Lower | Fl::Fold | Fl::Stem(_) => cur = r.into_iter().next().unwrap_or_default(),
+                        Fl::RemoveLong(_) | Fl::AlnumOnly | Fl::Stop(_) | Fl::StopEnglish => {
+                            if r.is_empty() {
+                                break;
+                            }
+                        }
+                        Fl::Split(_) => {
+                            if !r.is_empty() && !(r.len() == 1 && r[0] == cur) {
+                                parts = Some(r);
+                            }
+                        }
+                    }
+                }
+                Some(ps) => {
+                    let mut next = vec![];
+                    for q in ps.iter() {
+                        reach[k].insert(q.clone());
+                        next.extend(raw_with(f, q));
+                    }
+                    *ps = next;
+                }
+            }
+        }
+    }
+    reach
+}
+
+fn filter_spec_texts(f: &Fl, texts: &BTreeSet<&str>) -> String {
     let chars: BTreeSet<char> = texts.iter().flat_map(|t| t.chars()).filter(|c| !c.is_ascii()).collect();
     match f {
         Fl::Lower => format!("lower={}", chars.iter().map(|c| format!("{}>{}", *c as u32, dots(&c.to_lowercase().collect::<String>()))).collect::<Vec<_>>().join("/")),
@@ -362,7 +420,7 @@ fn filter_spec(f: &Fl, reaching: &[Token]) -> String {
         Fl::StopEnglish => format!("stop={}", ENGLISH_STOP.iter().map(|w| dots(w)).collect::<Vec<_>>().join("/")),
         Fl::Stem(_) => {
             let mut e = vec![];
-            for t in &texts {
+            for t in texts {
                 let r = raw_with(f, t);
                 if r.len() == 1 {
                     e.push(format!("{}>{}", dots(t), dots(&r[0])));
@@ -372,7 +430,7 @@ fn filter_spec(f: &Fl, reaching: &[Token]) -> String {
         }
         Fl::Split(_) => {
             let mut e = vec![];
-            for t in &texts {
+            for t in texts {
                 let r = raw_with(f, t);
                 if !(r.len() == 1 && r[0] == **t) && !r.is_empty() {
                     e.push(format!("{}>{}", dots(t), r.iter().map(|p| dots(p)).collect::<Vec<_>>().join("+")));
@@ -499,7 +557,14 @@ fn check_tokens(ctx: &mut Ctx, tk: &Tk, fls: &[Fl], text: &str) {
             let reaching = if k == 0 { base.clone() } else { tokens_of(&mut build(tk, &fls[..k]), text).unwrap_or_default() };
             specs.push(filter_spec(&fls[k], &reaching));
         }
-        let m = ctx.model.ask(&format!("C19 chain {} {}", specs.join("|"), enc_tokens(&base)));
+        let m = if *tk == Tk::Facet {
+            let reach = facet_reaching(fls, text);
+            let specs: Vec<String> = fls.iter().zip(&reach).map(|(f, r)| filter_spec_texts(f, &r.iter().map(|s| s.as_str()).collect())).collect();
+            ctx.report.count("facet-chain(buffer threaded through in-place filters)");
+            ctx.model.ask(&format!("C19 chainfacet {} {}", specs.join("|"), enc_text(text)))
+        } else {
+            ctx.model.ask(&format!("C19 chain {} {}", specs.join("|"), enc_tokens(&base)))
+        };
         let r = enc_tokens(&toks);
         if m != r {
             ctx.report.violation("model", "C19:filter-chain-mismatch", format!("filter chain output: real {} model {}: {desc}", &r[..r.len().min(160)], &m[..m.len().min(160)]), case.clone());
@@ -1034,6 +1099,7 @@ pub fn run(ctx: &mut Ctx) {
         "bare tokenizer (simple, whitespace, raw, ngram, facet, regex): (from,to,position) list = model".into(),
         "token texts of the bare tokenizer = model slices".into(),
         "filter chain output (offsets, positions, texts) = model chain with std/stemmer/dictionary functions as tables".into(),
+        "FacetTokenizer + filter chain (text buffer rewritten in place by filters) = model facetChain".into(),
         "SnippetGenerator::snippet: fragment, raw highlighted(), to_html() bytes (or panic) = model".into(),
         "collapse_overlapped_ranges = model collapse".into(),
         "SnippetGenerator::create over a real index = SnippetGenerator::new with 1/(1+doc_freq) scores".into(),
@@ -1057,6 +1123,10 @@ pub fn run(ctx: &mut Ctx) {
             check_snippet(ctx, &Tk::Ngram { min: 1, max: 3, prefix: false }, &[], "abcd", &t2, m, "corpus", None);
         }
         check_tokens(ctx, &Tk::Facet, &[], "top\0a\0b");
+        // found by the thorough tier: in-place filters rewrite the buffer the facet tokenizer appends to
+        check_tokens(ctx, &Tk::Facet, &[Fl::Stem("Turkish".into()), Fl::Stem("French".into())], "👨\u{200d}👩\u{200d}👧naïve\0fahrtRusty");
+        check_tokens(ctx, &Tk::Facet, &[Fl::Lower, Fl::Stem("English".into()), Fl::RemoveLong(40)], "Running\0flies\0PONIES\0Straße");
+        check_tokens(ctx, &Tk::Facet, &[Fl::Split(vec!["dampf".into(), "schiff".into()]), Fl::Stem("German".into())], "dampfschiff\0fahrten");
         check_tokens(ctx, &Tk::Ngram { min: 1, max: 2, prefix: false }, &[], "a😀é");
     }
     let t0 = std::time::Instant::now();
@@ -1071,7 +1141,7 @@ pub fn run(ctx: &mut Ctx) {
             // keep the quadratic blow-up of wide n-grams (tokens × token length) and the per-suffix
             // regex evaluation away from long texts
             if let Tk::Ngram { min, max, prefix } = &tk {
-                if *max > 5 && text.len() > 400 {
+                if *max > 5 && text.len() > 150 {
                     tk = Tk::Ngram { min: (*min).min(5), max: 5, prefix: *prefix };
                 }
             }
@@ -1080,7 +1150,15 @@ pub fn run(ctx: &mut Ctx) {
             }
             let fls = gen_chain(&mut rng);
             let t1 = std::time::Instant::now();
-            check_tokens(ctx, &tk, &fls, &text);
+            // facet paths: most of the time turn the spaces into the facet separator (byte 0)
+            let facet_text;
+            let text: &String = if tk == Tk::Facet && rng.chance(2, 3) {
+                facet_text = text.replace(' ', "\0");
+                &facet_text
+            } else {
+                &text
+            };
+            check_tokens(ctx, &tk, &fls, text);
             let dt = t1.elapsed().as_secs_f64();
             if dt > slowest.0 {
                 slowest = (dt, format!("{:?}+{:?} on {} bytes", tk, fls, text.len()));
